@@ -61,6 +61,29 @@ pub struct Ctx<'a> {
     pub fallback: Vec<Value>,
     pub budget: Cell<i64>,
     pub incomplete_quants: Cell<u64>,
+    /// how many universal instantiations the cover generator may still make for one quantifier
+    pub inst_budget: Cell<u32>,
+}
+
+/// `f` with the variable `v` replaced by the value `val` (binder ids are unique, so there is no
+/// capture to avoid)
+fn subst_value(f: &F, v: Vid, val: &Value) -> F {
+    fn term(t: &Term, v: Vid, val: &Value) -> Term {
+        match t {
+            Term::Var(x) if *x == v => Term::Val(val.clone()),
+            Term::Neg(a) => Term::Neg(Box::new(term(a, v, val))),
+            Term::Bin(op, a, b) => Term::Bin(*op, Box::new(term(a, v, val)), Box::new(term(b, v, val))),
+            x => x.clone(),
+        }
+    }
+    match f {
+        F::True | F::False => f.clone(),
+        F::Atom(p, ts) => F::Atom(p.clone(), ts.iter().map(|t| term(t, v, val)).collect()),
+        F::Cmp(t0, gs) => F::Cmp(term(t0, v, val), gs.iter().map(|(r, t)| (*r, term(t, v, val))).collect()),
+        F::Not(a) => F::Not(Box::new(subst_value(a, v, val))),
+        F::Bin(c, a, b) => F::Bin(*c, Box::new(subst_value(a, v, val)), Box::new(subst_value(b, v, val))),
+        F::Q(q, vars, body) => F::Q(*q, vars.clone(), Box::new(subst_value(body, v, val))),
+    }
 }
 
 const RANGE_LIMIT: i128 = 4096;
@@ -146,6 +169,7 @@ impl<'a> Ctx<'a> {
             fallback,
             budget: Cell::new(2_000_000),
             incomplete_quants: Cell::new(0),
+            inst_budget: Cell::new(0),
         }
     }
 
@@ -366,6 +390,28 @@ impl<'a> Ctx<'a> {
                 if *forall != pos {
                     helpers.extend(vars.iter().cloned());
                     self.nc(body, pos, w, gens, helpers);
+                } else if vars.len() <= 2 && self.inst_budget.get() >= 2 {
+                    // forall in positive position / exists in negative position: the body must
+                    // have the demanded value for EVERY value of the bound variables, in
+                    // particular for two sample values; the necessary conditions of both
+                    // instances hold together (universal instantiation). This decides shapes
+                    // like "for all X there is I with (I = X and A) -> B" (take I different
+                    // from X) that have no finite cover otherwise.
+                    self.inst_budget.set(self.inst_budget.get() - 2);
+                    for k in 0..2usize {
+                        let mut inst: F = (**body).clone();
+                        let mut ok = true;
+                        for v in vars {
+                            let cands: Vec<&Value> = self.fallback.iter().filter(|x| self.sort_ok(*v, x)).collect();
+                            match cands.get(k.min(cands.len().saturating_sub(1))) {
+                                Some(val) if cands.len() > k => inst = subst_value(&inst, *v, val),
+                                _ => ok = false,
+                            }
+                        }
+                        if ok {
+                            self.nc(&inst, pos, w, gens, helpers);
+                        }
+                    }
                 }
             }
         }
@@ -745,6 +791,7 @@ impl<'a> Ctx<'a> {
     fn quant(&self, forall: bool, vars: &[Vid], body: &F, env: &Env, w: World) -> Tv {
         let mut gens = Vec::new();
         let mut helpers = Vec::new();
+        self.inst_budget.set(8);
         // exists: body must be true; forall: counterexample = body not true
         self.nc(body, !forall, w, &mut gens, &mut helpers);
         let mut env2 = env.clone();
